@@ -10,8 +10,9 @@ Each item goes through the real items.parse_item.  If it is *accepted as a defin
      `c x <--> ~(c x)` and `c <--> (!x y::'b. x = y)` are unsatisfiable.
  Every extension produced by get_extension is well-typed over the extended signature (real check_term/check_type +
  an independent type checker).
+The export_json / get_display round trip of every accepted generated item is compared structurally (as server.monitor does).
 Outside the claim: full conservativity over arbitrary models, termination of recursive functions, and the
-export/parse/edit round trip of the library files (concrete corpus through the Lark parser).
+round trip of the 4000 library items (concrete corpus through the Lark parser).
 """
 import itertools
 import os
@@ -333,6 +334,10 @@ def check_item(data):
                 theory.thy.check_type(ext.T)
             except Exception:
                 return 'item-illtyped-extension', 'accepted item %s declares constant %s at an ill-formed type %s' % (data['name'], ext.name, ext.T), True
+    # export / edit round trip (structural; this is how server.monitor compares items): on the theory *before* the extension
+    kind_rt, why_rt = round_trip(data, item)
+    if kind_rt:
+        return kind_rt, why_rt, True
     if data['ty'] == 'def':
         r, why = consistent(item.prop, item.name, item.type)
         if r == 'unsat':
@@ -340,6 +345,37 @@ def check_item(data):
         if r == 'unknown':
             return '_unknown', why, True
     return None, 'fine', True
+
+
+def round_trip(data, item):
+    """parse_item(export_json(item)) == item and parse_edit(get_display(item)) == item, each on a fresh copy of the theory."""
+    from server import items
+    from logic import basic
+    from syntax.settings import global_setting
+    for how in ('export_json', 'get_display'):
+        basic.load_theory('nat')
+        try:
+            it0 = items.parse_item(dict(data))
+            # as server.monitor does: print in the extended theory, parse back in the theory before the extension
+            from kernel import theory
+            theory.thy.unchecked_extend(it0.get_extension())
+            if how == 'export_json':
+                with global_setting(unicode=True, highlight=False):
+                    js = it0.export_json()
+                basic.load_theory('nat')
+                it2 = items.parse_item(js)
+            else:
+                with global_setting(unicode=True, highlight=False):
+                    disp = it0.get_display()
+                basic.load_theory('nat')
+                it2 = items.parse_edit(disp)
+        except NotImplementedError:
+            continue
+        except Exception as e:
+            return 'item-roundtrip', 'item %s: %s then parsing back raises %s: %s' % (data.get('name'), how, type(e).__name__, str(e)[:80])
+        if it2.error is not None or it2 != it0:
+            return 'item-roundtrip', 'item %s: %s then parsing back gives a different item (%s)' % (data, how, 'error %s' % str(it2.error)[:60] if it2.error else 'not equal')
+    return None, None
 
 
 def units(tier, seed):
